@@ -525,6 +525,15 @@ def c13_witness(pid, fails, repo):
             out['input'] = pan[0]
             out['more'] = pan[1:6]
         return out
+    if f.unit == 'X':
+        # panic freedom / termination of the flattening functions: the bounded tree family on the real reader
+        res = x_replay.search(repo)
+        pan = [a for a in res['anomalies'] if a['members_of_T_observed'] in ('PANIC', 'HANG', 'ABORT')]
+        out = {'found': bool(pan), 'trees_read_by_real_code': res['trees_read_by_real_code']}
+        if pan:
+            out['input'] = pan[0]
+            out['more'] = pan[1:4]
+        return out
     return {'found': False}
 
 
@@ -590,8 +599,10 @@ PROPS['C09'] = {
                   '\':\' (lemma: "p:n" with colon-free p splits into exactly (p, n)); resolve_type returns the namespace entry bound to that prefix (or None); '
                   'as_rust_type names a non-builtin type PascalCase(local) in the module of the entry bound to the prefix, and maps the 27 builtins to the '
                   'reference carriers (C02 table). Plus L3 translation validation of the emitted member / envelope types on multi-namespace programs.',
-    'level_note': 'NOT covered by proof: find_node_by_xml_name and its tree-search fallback (they call into the roxmltree-driven reader) — the fallback is known '
-                  'to ignore namespace and component kind; their effect is only observed per program by the L3 shape contracts. Trusted: str::split_once '
+    'level_note': 'find_node_by_xml_name / find_type_by_xml_name / find_component_by_xml_name (doc.rs) are PROVED for the table branch: whenever the nodes read so far contain a '
+                  'component called Name in the referenced namespace (a type, where a type is wanted), the result is such a component — never one of another namespace, name or kind. '
+                  'NOT covered by proof: the tree-search fallback for forward references (try_to_find_node_by_xml_name_in_xml_doc: roxmltree descendants + the whole reader; declared '
+                  'without contract); its effect is only observed per program by the L3 shape contracts. Trusted: str::split_once '
                   'axiom (first occurrence), HashMap<String,_> lookup by &str, Inflector stand-in (pascal is an uninterpreted function).',
     'assumptions': ['split_once(char) splits at the first occurrence', 'String keys are determined by their text'],
 }
